@@ -153,4 +153,5 @@ Definition zoom_sizes_single (o : opts) : list N :=
              | Some zs => zs
              | None => map (fun k => o_izoom o * ZOOM_SUCC_FACTOR ^ N.of_nat k) (seq 0 (N.to_nat (o_maxzooms o)))
              end in
-  sort_dedup (filter (fun z => negb (z =? 0)) raw).
+  (* at most MAX_ZOOM_LEVELS levels fit the directory: the finest ones are kept (/repo adc453b) *)
+  firstn (N.to_nat MAX_ZOOM_LEVELS) (sort_dedup (filter (fun z => negb (z =? 0)) raw)).
